@@ -113,6 +113,7 @@ AuxNext(aux, pre, ev, post) ==
      rev |-> [d \in Devs |-> aux.rev[d] + SeqSum([i \in DOMAIN Occ(ev, "recv", d) |-> Occ(ev, "recv", d)[i][5]])],
      idle |-> [d \in Devs |->
                  IF d \in HoldDevs /\ ( (~FreeDev(pre, d) /\ FreeDev(post, d))
+                                         \/ (Occ(ev, "recv", d) # <<>> /\ FreeDev(post, d))      \* received and finished in zero time
                                          \/ (d \in Procs /\ pre.dev[d].down /\ ~post.dev[d].down)
                                          \* replacing a waiting device's connections restarts its waiting time (documented in the code)
                                          \/ (ScriptOn(ev, "rewire", d) /\ FreeDev(post, d) /\ Operational(post, d)) )
